@@ -4,6 +4,7 @@
 -/
 import PS.Model.Parse
 import PS.Model.Initialize
+import PS.Spec.Twins
 open PS
 
 structure Session where
@@ -24,6 +25,11 @@ def handle (ss : Session) (line : String) : Session × List String :=
         let cfg := parseConfig cfgl
         let fs := initializeO cfg ss.st
         (ss, ("(n " ++ toString fs.length ++ ")") :: fs.map (fun (o, f) => o.print ++ "\t" ++ f.print))
+    | .list [.atom "spec", .atom which] =>
+        let fs := match which with
+          | "C01" => specC01 ss.st
+          | _ => []
+        (ss, ("(n " ++ toString fs.length ++ ")") :: fs.map (fun f => f.print))
     | _ =>
       match parseDecl sx with
       | some d =>
